@@ -1530,6 +1530,30 @@ theorem slice_loose (S : Schema) (src : Node) (a b : Nat) (sl : Slice) (hsrc : C
     (hcut : src.slice a b = .ok sl) : UL S sl.openStart sl.openEnd sl.content :=
   slice_UL S src a b sl hsrc hcut
 
+/-- **the document a fitted replace returns is valid, with no hypothesis on the emitted payload**: when `replace_step` answers
+    a `ReplaceStep` for a loosely valid slice and `Step.apply` returns a document, that document is valid (`recorded_valid`
+    with its payload hypothesis discharged by `fit_emits_valid_payload`) -/
+theorem fit_replace_recorded_valid (S : Schema) (hdet : detB S = true) (hfill : S.fillersOKB = true)
+    (hwrap : S.wrapOKB = true) (hlab : S.labelsOKB = true) (hleaf : PM.FromDom.leafOkB S = true)
+    (hts : textStableC S = true) (hcl : S.closableB = true) (doc : Node) (f t : Nat) (sl : Slice)
+    (hloose : sl.looseValid S = true) (hv : C01.Valid S doc) (hattrs : S.nodeAttrsOK doc = true)
+    (hrun : unplacedWfRun S doc f t sl = true) (F T : Nat) (sl' : Slice) (b : Bool)
+    (h : replaceStep S doc f t sl = .ok (some (.replace F T sl' b))) (doc' : Node)
+    (ha : S.apply (.replace F T sl' b) doc = .ok doc') : C01.Valid S doc' := by
+  obtain ⟨sl'', hs, hval⟩ := fit_emits_valid_payload S hdet hfill hwrap hlab hleaf hts hcl doc f t sl hloose hv hattrs hrun
+    _ h
+  simp only [Step.sliceOf, Option.some.injEq] at hs
+  subst hs
+  exact recorded_valid S (.replace F T sl' b) doc doc' hv hval ha
+
+/-- … and whatever a deletion records is valid: `recorded_valid` with its payload hypothesis discharged for both kinds of
+    answer (`delete_emits_payloadValid`) -/
+theorem delete_recorded_valid (S : Schema) (hdet : detB S = true) (hleaf : PM.FromDom.leafOkB S = true)
+    (doc : Node) (f t : Nat) (hv : C01.Valid S doc) (hattrs : S.nodeAttrsOK doc = true) (st : Step)
+    (h : replaceStep S doc f t Slice.empty = .ok (some st)) (doc' : Node) (ha : S.apply st doc = .ok doc') :
+    C01.Valid S doc' :=
+  recorded_valid S st doc doc' hv (delete_emits_payloadValid S hdet hleaf doc f t hv hattrs st h) ha
+
 /-- a loosely valid slice is a valid payload -/
 theorem looseValid_is_valid_payload (S : Schema) (sl : Slice) (h : sl.looseValid S = true) :
     openValid S sl.openStart sl.openEnd sl.content = true := looseValid_openValid S sl h
